@@ -76,6 +76,15 @@ func (s *verifMuxSocket) WriteTo(p []byte, addr net.Addr) (int, error) {
 		}
 		return 0, os.ErrDeadlineExceeded
 	}
+	// a write deadline in the past fails every write that starts while it is
+	// armed, whoever armed it (the poller checks the deadline before the
+	// system call)
+	s.mu.Lock()
+	expired := s.deadlineSet
+	s.mu.Unlock()
+	if expired {
+		return 0, os.ErrDeadlineExceeded
+	}
 	cp := append([]byte{}, p...)
 	s.sent = append(s.sent, verifDatagram{cp, addr})
 	return len(p), nil
